@@ -456,7 +456,7 @@ def case_strategy(draw, max_ops):
 
 
 def shards(tier, seed):
-    n, per, mx = (16, 40, 24) if tier == "quick" else (64, 150, 40)
+    n, per, mx = (16, 40, 24) if tier == "quick" else (64, 100, 40)
     return [{"n": per, "max_ops": mx, "seed": seed * 1000 + i} for i in range(n)]
 
 
